@@ -1,13 +1,14 @@
 /-
   C19 driver commands (one case per line):
 
-    c19explore <gen|ref> <micro|macro> <limit> <allowed faults, comma separated or -> <scenario>
+    c19explore <gen|ref|old> <micro|macro> <limit> <allowed faults, comma separated or -> <scenario>
         → `ok <n> <code>*`            closed set of reachable states (codes), none bad
         → `bad <kind> <n> ; <thread>*` a shortest schedule into a bad / deadlocked state
         → `err <why>`
     c19replay <gen|ref> <scenario> ; <thread>*
         → `<status> | <thread.call.Exc>* | D<ids> I<ids> T<ids> | <overlap 0/1> | <faults>`
     c19code <gen|ref> <scenario>      → length of each thread's flat code
+    c19conf <gen|ref|old> <scenario>  → `<conformant 0/1> <disciplined 0/1>`
 
   scenario = `D<ids> I<ids> T<ids> E<ids>` then, per thread, `|` followed by calls
   `<method>.<key>.<throwAt>`; ids are single digits.
@@ -54,6 +55,7 @@ def parseScenario (ts : List String) : Option Scenario :=
 
 def pick (which : String) : Protocol × Discipline :=
   if which == "ref" then (referenceProtocol, referenceDiscipline)
+  else if which == "old" then (referenceProtocol, unrepairedDiscipline)   -- before `ttl-index-race` was fixed
   else (MongoModel.Generated.protocol, MongoModel.Generated.discipline)
 
 def showIds (p : String) (xs : List Nat) : String := p ++ String.join (xs.map toString)
@@ -85,6 +87,8 @@ def leanInstr : Instr → String
   | .collect => ".collect"
   | .iterBegin d => s!".iterBegin {leanDict d}" | .iterNext d => s!".iterNext {leanDict d}"
   | .loopEnd d => s!".loopEnd {leanDict d}"
+  | .snapshot d => s!".snapshot {leanDict d}" | .snapNext d => s!".snapNext {leanDict d}"
+  | .snapEnd d => s!".snapEnd {leanDict d}"
   | .yield n => s!".yield {n}" | .collNext => ".collNext" | .collEnd => ".collEnd"
   | .skip n => s!".skip {n}" | .reraise => ".reraise" | .handler => ".handler"
 def leanPhase : Phase → String
@@ -156,7 +160,7 @@ def handle (ts : List String) : Option (List String) :=
       let (P, D) := pick which
       let cfg := mkCfg P D sc
       let b (x : Bool) : String := if x then "1" else "0"
-      some [b (cfg.conformant P), b cfg.disciplined, b cfg.ttlFrozen]
+      some [b (cfg.conformant P), b cfg.disciplined]
   | "c19code" :: which :: rest =>
     match parseScenario rest with
     | none => some ["err", "scenario"]
